@@ -410,7 +410,7 @@ func main() {
 		ID:    "C03",
 		Level: "model_checking",
 		Rule: "every (template, context) case x every assignment of key permutations to the map-iteration points the render reaches, within the order-deviation bound " +
-			"(n! permutations for n<=4 keys; rotations+reversal+transpositions above); plus the whole non-date corpus rendered in fresh child processes in forward, reverse and rotated orders (fresh engine per case and one shared engine, every template twice): each template's bytes must not depend on the order or the process; non-trivial = at least one iteration point with >=2 keys is reached, or the case prints pointers / date formats",
+			"(n! permutations for n<=4 keys; rotations+reversal+transpositions above); plus the whole non-date corpus rendered in fresh child processes in forward, reverse and rotated orders (fresh engine per case and one shared engine, every template twice): each template's bytes must not depend on the order or the process; plus every map template over three map types with the map changed in place between renders on one engine (key replaced at equal size, entry added, removed), against a fresh engine with a freshly allocated equal map; non-trivial = at least one iteration point with >=2 keys is reached, or the case prints pointers / date formats",
 		Assumptions: []string{
 			"map iteration inside package twig is routed through the order oracle by a build-time rewrite of range-over-map and MapKeys(); clear/copy loops whose order cannot be observed are left alone",
 			"for maps with more than 4 keys the alternatives are rotations, reversal and transpositions (not all n! orders)",
@@ -430,6 +430,7 @@ func main() {
 				t.Case(c.Group+"|"+c.Ctx+"|"+c.Tpl, func() *vlib.Outcome { return checkCase(c, dev, native) })
 			}
 			againCases(t)
+			mutateCases(t)
 		},
 		Extra: func(tier string, cov map[string]interface{}) {
 			cov["states"] = cov["iteration_points"]
